@@ -364,7 +364,13 @@ def run(ctx):
                                    "does not reproduce the implementation's views",
                            "grammar": src, "kind": kind, "difference(tag,state,mirror,impl)": mdiff}, no_input=(ok is not False))
         ctx.oblige((ok is None or ok) and mirror_ok)
-        ctx.case(src, d.nstates >= 4, {"grammar": src, "kind": kind, "family": fam, "states": d.nstates, "tokens": d.ntoks, "rules": d.nrules,
+        last = len(d.prods) - 1
+        if any(c[0] == "R" and c[1] == last for c in d.actions.values()):
+            n_last_reduced += 1
+            ctx.count("tables_reducing_the_last_production")
+        if any(c[0] == "R" and c[1] > d.start_prod for c in d.actions.values()):
+            n_added_reduced += 1
+        ctx.case(src if kind == "O" else kind + " " + src, d.nstates >= 4, {"grammar": src, "kind": kind, "family": fam, "states": d.nstates, "tokens": d.ntoks, "rules": d.nrules,
                                       "coherent_b": coherent, "nonassoc_erased_cells": len(erased),
                                       "reduce_only_states": sum(1 for v in d.vro.values() if v)})
         ctx.count("coherent" if coherent else "not_coherent")
